@@ -29,6 +29,7 @@ structure HopOut where
   dialPort : Nat
   wrote : Bytes                 -- everything written before the first TLS byte
   tlsName : Option Bytes        -- a TLS handshake was started for this name (tunnel)
+  tlsNameIsDomain : Bool := true -- the TLS library sends no SNI for a dotted IPv4 name; a bracketed IPv6 literal is passed (and sent) as if it were a DNS name (observation O7)
   deriving Repr
 
 inductive Final where
@@ -131,7 +132,7 @@ def sendLoop (s : SendSettings) (req : Req) (cap : Nat) :
       -- CONNECT tunnel: nothing but the CONNECT head is written before the proxy agrees
       let out := { out with wrote := connectRequest url target }
       match initiateTunnel s.maxHeaders cap hop.script with
-      | .tlsStarted => ([{ out with tlsName := some url.host }], .tlsStarted)
+      | .tlsStarted => ([{ out with tlsName := some url.host, tlsNameIsDomain := url.hostKind != 1 }], .tlsStarted)
       | f => ([out], f)
     else
       match exchange s req cap n url hop with
